@@ -35,6 +35,37 @@ class TypeMarker(object):
         return hash(("TypeMarker", self.name))
 
 
+class ObjConst(object):
+    """an instance of a plain record class of the package built in a constant table: its class and its attribute values"""
+    def __init__(self, qname, attrs):
+        self.qname = qname
+        self.attrs = attrs
+
+    def __repr__(self):
+        return "%s(%s)" % (self.qname, ", ".join("%s=%r" % kv for kv in sorted(self.attrs.items())))
+
+    def __eq__(self, other):
+        return isinstance(other, ObjConst) and (other.qname, other.attrs) == (self.qname, self.attrs)
+
+    def __hash__(self):
+        return hash(("ObjConst", self.qname, repr(sorted(self.attrs.items(), key=lambda kv: kv[0]))))
+
+
+class LambdaConst(object):
+    """an argument-less lambda stored in a constant table (a default factory): its source"""
+    def __init__(self, src):
+        self.src = src
+
+    def __repr__(self):
+        return self.src
+
+    def __eq__(self, other):
+        return isinstance(other, LambdaConst) and other.src == self.src
+
+    def __hash__(self):
+        return hash(("LambdaConst", self.src))
+
+
 class RegexConst(object):
     def __init__(self, pattern, flags=0):
         self.pattern = pattern
@@ -876,6 +907,48 @@ class Model(object):
                         return fn()
                     except Exception as e:
                         raise NotConst("compare failed: %s" % e)
+        if isinstance(node, ast.Lambda) and not (node.args.args or node.args.vararg or node.args.kwarg or node.args.kwonlyargs
+                                                 or node.args.posonlyargs):
+            return LambdaConst(ast.unparse(node))
+        if isinstance(node, ast.Call) and isinstance(node.func, ast.Name) and node.func.id in m.classes and node.func.id not in env:
+            # a record of a plain data class (its __init__ only stores its parameters): the attribute values
+            c = m.classes[node.func.id]
+            init = c.methods.get("__init__")
+            if init is None or c.bases or init.args.vararg or init.args.kwarg or init.args.kwonlyargs \
+                    or any(isinstance(a, ast.Starred) for a in node.args) or any(k.arg is None for k in node.keywords):
+                raise NotConst("constructor call of %s" % node.func.id)
+            params = [a.arg for a in init.args.args][1:]
+            bound = {}
+            for p_, a in zip(params, node.args):
+                bound[p_] = ev(a, m, env)
+            if len(node.args) > len(params):
+                raise NotConst("too many arguments for %s" % node.func.id)
+            for k in node.keywords:
+                if k.arg not in params or k.arg in bound:
+                    raise NotConst("unexpected keyword %s" % k.arg)
+                bound[k.arg] = ev(k.value, m, env)
+            for p_, d in zip(params[len(params) - len(init.args.defaults):], init.args.defaults):
+                if p_ not in bound:
+                    bound[p_] = ev(d, m, env)
+            if set(params) - set(bound):
+                raise NotConst("missing arguments for %s" % node.func.id)
+            attrs = {}
+            sname = init.args.args[0].arg
+            for st in init.body:
+                if isinstance(st, ast.Expr) and isinstance(st.value, ast.Constant):
+                    continue
+                if isinstance(st, ast.Assign) and len(st.targets) == 1 and isinstance(st.targets[0], ast.Attribute) \
+                        and isinstance(st.targets[0].value, ast.Name) and st.targets[0].value.id == sname:
+                    if isinstance(st.value, ast.Name) and st.value.id in bound:
+                        attrs[st.targets[0].attr] = bound[st.value.id]
+                        continue
+                    try:
+                        attrs[st.targets[0].attr] = ev(st.value, m, dict(env, **bound))
+                        continue
+                    except NotConst:
+                        pass
+                raise NotConst("%s.__init__ does more than store its parameters" % node.func.id)
+            return ObjConst(c.qname, attrs)
         if isinstance(node, ast.Call):
             fname = dotted(node.func)
             if any(isinstance(a, ast.Starred) for a in node.args) and fname not in ("chain", "itertools.chain"):
